@@ -739,14 +739,16 @@ class BaseWorkflow(object, metaclass=abc.ABCMeta):
                                 # facility.assigned_task_list.append(task)
 
     def __check_finished(self, time: int, error_tol=1e-10):
-        working_and_zero_task_set = set(
+        # visit the tasks in task_list order: whether an FF successor finishes in the same step as its
+        # predecessor must not depend on the iteration order of a set of objects
+        working_and_zero_task_list = list(
             filter(
                 lambda task: task.state == BaseTaskState.WORKING
                 and task.remaining_work_amount < 0.0 + error_tol,
                 self.task_list,
             )
         )
-        for task in working_and_zero_task_set:
+        for task in working_and_zero_task_list:
             # check FINISH condition by each dependency
             # SF: if input task is working
             # FF: if input task is finished
